@@ -181,6 +181,11 @@ def run(report, db, tier):
     # stream from the connection for every frame
     from .c10 import transport_lookup
     transport_lookup(report, db, cg, M, rule_id='R01.9')
+    R7 = report.rule('R01.7', 'whatever threshold is in force: every '
+                     'set-compression arm (login, and play for protocol <= '
+                     '47) stores the threshold and switches compression on')
+    report.floor('set-compression arms', shared.compression_arms(
+        report, R7, db, S, M), 2)
 
 
 def writer(report, db, S, M):
